@@ -151,3 +151,18 @@ def lambda_term(lam: ast.Lambda, outer_tx: Tx, arg_names=None):
             env[a.arg] = outer_tx.expr(defaults[i - n_nodef])
     t = outer_tx.child(env)
     return t.expr(lam.body), t
+
+
+def ctor_fields(chk, rule, rel, cls, fields, why):
+    """Constructor-field agreement: `cls.__init__` stores each named parameter, unconditionally and exactly once, into the attribute
+    of the same name (what every other rule assumes when it reads `obj.field` as "the value the caller configured")."""
+    import ast as _ast
+    from .astutil import stores as _stores, parent as _parent
+    fn = chk.fn(rel, f"{cls}.__init__")
+    params = [a.arg for a in fn.args.args + fn.args.kwonlyargs]
+    for f in fields:
+        sts = [(t, v, s0) for t, v, s0 in _stores(fn) if isinstance(t, _ast.Attribute) and norm(t.value) == "self" and t.attr == f]
+        ok = f in params and len(sts) == 1 and isinstance(sts[0][1], _ast.Name) and sts[0][1].id == f and _parent(sts[0][2]) is fn
+        chk.ob(rule, f"{rel}:{cls}.__init__", f"field-is-its-parameter[{f}]", ok,
+               f"`{cls}(…, {f}=v)` makes `obj.{f}` equal to v: one unconditional store of the parameter into the attribute ({why})",
+               node=sts[0][2] if sts else fn, strength="N", stores=[norm(s0)[:80] for t, v, s0 in sts])
